@@ -295,7 +295,13 @@ def r5_3(ctx):
     else:
         ctx.bad("R5.3", fi.module, fi.qual, "if uid_msg_set is not None: for uid in uid_msg_set: if uid in uids_to_delete: ...", "UID restriction of EXPUNGE no longer intersects the given set with the \\Deleted messages", fi.node.lineno)
     forced_pat = "for uid in uid_msg_set:\n    if uid in self._uid_to_idx:\n        idx = self._uid_to_idx[uid]\n        to_delete.append(self.msg_keys[idx])\n        uids_to_delete.append(uid)"
-    if pm.has(forced_pat):
+    forced_alts = [
+        forced_pat,
+        # filter first, then map position by position
+        "known = [uid for uid in uid_msg_set if uid in self._uid_to_idx]\nto_delete = sorted([self.msg_keys[self._uid_to_idx[uid]] for uid in known], reverse=True)\nuids_to_delete = sorted(known, reverse=True)",
+        "to_delete = sorted([self.msg_keys[self._uid_to_idx[uid]] for uid in uid_msg_set if uid in self._uid_to_idx], reverse=True)\nuids_to_delete = sorted([uid for uid in uid_msg_set if uid in self._uid_to_idx], reverse=True)",
+    ]
+    if any(pm.has(x) for x in forced_alts):
         ctx.ok("R5.3", where(fi), "forced path keeps only UIDs present in this mailbox and takes the key at the UID's position")
     else:
         ctx.bad("R5.3", fi.module, fi.qual, "if uid in self._uid_to_idx: to_delete.append(self.msg_keys[idx])", "forced expunge no longer filters unknown UIDs / maps each UID to the key at its position", fi.node.lineno)
@@ -325,9 +331,12 @@ def r5_3(ctx):
     defs = reaching_defs(g, ln[0], var)
     ctx.paths_explored += len(defs)
     allowed_src = {pm.name(v) for v in ("msg_keys_to_delete", "new_to_delete", "to_delete")} | {var, "self"}
+    # (the comprehension forms of the forced path, pinned by `forced_alts`, read the filtered UID list / the UID argument)
+    allowed_src |= {pm.name("known"), pm.name("uids_to_delete"), "uid_msg_set"} - {None} if not pm.has(forced_pat) else set()
     for d in defs:
         a = g.nodes[d].ast
-        srcs = names_in(a.value) - {"sorted", "reverse", "True"}
+        bound = {t.id for c in ast.walk(a.value) if isinstance(c, ast.comprehension) for t in ast.walk(c.target) if isinstance(t, ast.Name)}
+        srcs = names_in(a.value) - {"sorted", "reverse", "True"} - bound
         if srcs <= allowed_src:
             ctx.ok("R5.3", where(fi), f"deletion list def @{g.nodes[d].line}: {norm(a, 60)}")
         else:
